@@ -1004,6 +1004,11 @@ class Exec:
             base = self.ev(t.value, st)
             new = self.models.arr_setitem(self, st, st.deref(base), t.slice, v, t)
             if new is not None:               # functional update of an array value, written back to where it came from
+                if isinstance(t.value, ast.Name) and getattr(st.deref(base), 'shared', False) and not getattr(self, 'allow_shared_store', False):
+                    # `x = container[k]; x[...] = v` writes through to the element of the container (NumPy view semantics); the
+                    # functional update would only rebind the local name, so this is outside the subset
+                    raise Unsupported(f'element assignment into an array that also lives in a container / attribute (line {t.lineno}): '
+                                      f'aliasing is not modelled by ttvc')
                 self.assign(t.value, new, st)
                 return
             self.models.store(self, st, base, t.slice, v, t, t.value)
